@@ -1352,6 +1352,11 @@ WITNESSES = [
     {'prec': 113, 'rule': 'ts', 'api': 'string', 'form': 'mpf', 'cell': 'pe.exp/inf', 'variants': [],
      'f': [{'fam': 'pe', 'E': 'exp', 'c': [[5, 0], [-4, 0], [4, 0]], 'k': [-19, -3], 'w': [0, 0], 'phi': [0, 0]}],
      'ivs': [[[21, -3], 'inf']]},
+    {'prec': 58, 'rule': 'ts', 'api': 'short', 'form': 'mpf', 'cell': 'lorentz/in', 'variants': [],
+     'f': [{'fam': 'lorentz', 'al': [0, -2], 'be': [-2, -2], 'm': [-12, -3], 's': [15, -3]}],
+     'ivs': [[[-31, -2], [-41, -3], [-5, -1], [1, -3], [11, -2]]]},
+    {'prec': 53, 'rule': 'ts', 'api': 'string', 'form': 'mpf', 'cell': 'gauss/half', 'variants': [],
+     'f': [{'fam': 'gauss', 'cc': [30, -3], 'n': 1, 'm': [-15, -3], 'w': [0, 0]}], 'ivs': [['-inf', [23, -3]]]},
     {'prec': 53, 'rule': 'ts', 'api': 'string', 'form': 'mpf', 'cell': 'gauss/whole', 'variants': [],
      'f': [{'fam': 'gauss', 'cc': [1, 0], 'n': 0, 'm': [0, 0], 'w': [0, 0]}], 'ivs': [['-inf', 'inf']]},
 ]
